@@ -1016,6 +1016,57 @@ def target_search(ctx, shim, r, nfonts, ntexts):
                          "non-trivial = expected attachments checked")
 
 
+def pos_groups(shim, r, nfonts, nbufs):
+    """request groups of the `gpos-lookup` correspondence stream: font, then `gp pos` lines (the lookups the crate's
+    own plan selects, queried first with `gp plan`)"""
+    fonts = []
+    for f in range(nfonts):
+        k = r.below(10)
+        rec, sem = tg.target_font(r, kinds=[4, 4, 4, 5, 5, 6, 6] if k < 7 else [3, 4, 4, 5, 6] if k < 9 else [3])
+        rec = {x: v for x, v in rec.items() if x != "gsub"}; sem["gsub"] = None
+        fonts.append((f"Q{f}", rec, sem))
+    plans = vlib.run_groups(shim, [[f"font {fid} {fontbuild.hexfont(rec)}"] + [f"gp plan {fid} {d}" for d in DIRS] + [f"fontdrop {fid}"]
+                                   for fid, rec, sem in fonts], timeout=600)
+    groups = []
+    for (fid, rec, sem), po in zip(fonts, plans):
+        if po[0] != "ok" or not all(x.startswith("ok") for x in po[1:5]):
+            raise vlib.BuildError(f"gp plan failed on a generated font: {po[:5]}")
+        lines = [f"font {fid} {fontbuild.hexfont(rec)}"]
+        for _ in range(nbufs):
+            di = r.below(4)
+            t = po[1 + di].split()[1]
+            maps = [] if t == "-" else [[int(v) for v in m.split(":")] for m in t.split(",")]
+            all_mask = 0
+            for m in maps: all_mask |= m[1]
+            infos = tg.rand_infos(r, sem, all_mask or 0x80000000)
+            ps = rand_pos(r, len(infos))
+            if r.chance(1, 4):
+                for q in ps: q[4], q[5] = r.range(-3, 3), r.below(4)       # position_start must forget these
+            lines.append(tg.pos_request(fid, DIRS[di], 0 if r.chance(1, 3) else 1, infos, sem, maps, ps))
+        lines.append(f"fontdrop {fid}")
+        groups.append(lines)
+    return groups
+
+
+def classify_pos(ln, out):
+    t = ln.split()
+    ks = ["pos", "pos:dir:" + t[3], "pos:finish:" + t[4]]
+    if out.startswith("ok"):
+        o = out.split()
+        ks.append("pos:has-attachment:" + o[1])
+        if t[4] == "0":
+            ch = [parse_pos(x) for x in o[2:]]
+            nm = sum(1 for q in ch if q[4] != 0 and q[5] == 1)
+            nc = sum(1 for q in ch if q[4] != 0 and q[5] == 2)
+            far = sum(1 for q in ch if q[5] == 1 and q[4] < -1)
+            ks.append("pos:mark-links:" + ("0" if nm == 0 else "1-2" if nm < 3 else "3+"))
+            ks.append("pos:cursive-links:" + ("0" if nc == 0 else "1+"))
+            if far: ks.append("pos:mark-link-skips-glyphs")
+    else:
+        ks.append(out[:40])
+    return ks
+
+
 def value_font(r, with_gpos=True, with_kern=True):
     adv = [0] + [r.range(300, 900) for _ in range(NG - 1)]
     rec = {"num_glyphs": NG, "cmap": "pua", "advances": adv}
@@ -1290,6 +1341,8 @@ def run(ctx):
     ctx.correspond("kern-fmt0", lines=f0_lines(ctx.rng("f0"), ctx.budget(2000, 100000)), canon=canon)
     ctx.correspond("kern-driver", lines=drv_lines(ctx.rng("drv"), ctx.budget(3000, 300000), plans),
                    classify=classify_drv, canon=canon)
+    ctx.correspond("gpos-lookup", groups=pos_groups(shim, ctx.rng("pos"), ctx.budget(150, 6000), ctx.budget(12, 16)),
+                   classify=classify_pos, canon=canon, only=lambda ln: ln.startswith("gp pos"))
     corpus_seeds(ctx, shim)
     d3_hook_seed(ctx, shim, plans)
     mark_chain_search(ctx, shim, ctx.rng("markchain"), ctx.budget(3000, 200000))
